@@ -12,6 +12,7 @@ mod scen_chunk;
 mod scen_de;
 mod scen_fault;
 mod scen_hist;
+mod scen_pipe;
 mod source;
 
 use crate::core::Tier;
